@@ -20,7 +20,7 @@ func VerifH_C22_ServerSignature() {
 	policy := policies[vfConcrete(vfInt("policy", 0, vfParam("c22.policies", 1)-1))]
 	uri := ua.FormatSecurityPolicyURI(policy)
 	mode := ua.MessageSecurityMode(vfConcrete(vfInt("mode", 2, 3)))
-	kind := vfConcrete(vfInt("signature", 0, 4))
+	kind := vfConcrete(vfInt("signature", 0, 5))
 	var env *vfSecEnv
 	var c *Client
 	c, env = vfConnectedClientSec(policy, mode, func(ssc *uasc.SecureChannel, req ua.Request) ua.Response {
@@ -39,6 +39,8 @@ func VerifH_C22_ServerSignature() {
 			case 3: // made with a different private key
 				enc, _ := uapolicy.Asymmetric(uri, env.otherKey, &env.clientKey.PublicKey)
 				sig, _ = enc.Signature(append(append([]byte{}, r.ClientCertificate...), r.ClientNonce...))
+			case 5: // genuine, with surplus bytes appended
+				sig = append(append([]byte{}, sig...), vfU8("surplus"))
 			case 4: // made over other data (another nonce)
 				other := append([]byte{}, r.ClientNonce...)
 				other[0] ^= 1
